@@ -24,8 +24,8 @@ def words_for(ast, n=2):
 
 class C05(Prop):
     ID = "C05"
-    RULE = ("(i) every string of <= L tokens over {a,b,ab,blank,.,|,+,*,(,),epsilon,$,\\|,\\*,\\(,\\$} (well-formed, ill-formed "
-            "and unspecified texts), (ii) every regex AST with <= s nodes over leaves {a,b,epsilon,escaped |,escaped $} rendered "
+    RULE = ("(i) every string of <= L tokens over {a,b,ab,blank,.,|,+,*,(,),epsilon,$,\\|,\\*,\\(,\\$,escaped blank} (well-formed, ill-formed "
+            "and unspecified texts), (ii) every regex AST with <= s nodes over leaves {a,b,epsilon,escaped |,escaped $,escaped blank} rendered "
             "with minimal and with redundant parentheses and all spellings of concatenation (blank . ' . ') and union "
             "(| + ' | '), (iii) union/concatenate/kleene_star on all ordered pairs of ASTs <= 3 nodes; "
             "non-trivial = well-formed text with >= 2 distinct symbols or an operator")
